@@ -87,6 +87,11 @@ func vCacheAdd(c *lru.ARCCache, key, val interface{}) {
 	vCacheLogs[c] = append(vCacheLogs[c], vCacheEntry{key, val})
 }
 
+// Purge empties the cache (not called by the code as it stands; modelled so that a change that
+// starts to reuse a cache object across generations is judged by what it does, not by a crash
+// of the model)
+func vCachePurge(c *lru.ARCCache) { vCacheLogs[c] = nil }
+
 // ---- symbolic configuration ------------------------------------------------
 
 type vShape struct {
